@@ -177,6 +177,14 @@ fn initial_model(rng: &mut StdRng) -> ModelM {
             n.entities.push(EntityM { name: format!("E{}", counter), fields, indexes: vec![], no_fts: false });
         }
     }
+    // one case in four starts with a wide entity: field identifiers get a third digit after a few additions
+    if rng.gen_bool(0.25) {
+        let e = &mut ns[0].entities[0];
+        let width = rng.gen_range(58..68);
+        for i in e.fields.len()..width {
+            e.fields.push(FieldM { name: format!("w{}", i), ty: if i % 2 == 0 { Ty::Str } else { Ty::Integer }, nullable: true, default: None, deprecated: false });
+        }
+    }
     ModelM { ns }
 }
 
@@ -199,7 +207,21 @@ fn edit(m: &ModelM, rng: &mut StdRng, counter: &mut u32) -> (ModelM, String) {
             "add-entity".into()
         }
         3 | 4 | 5 | 6 if has_entity => {
-            let k = rng.gen_range(1..=3);
+            let k = rng.gen_range(1..=5);
+            // the widest entity grows more often than the others
+            let (ni, ei) = if rng.gen_bool(0.5) {
+                let mut best = (ni, ei, 0);
+                for (a, nsm) in n.ns.iter().enumerate() {
+                    for (b, e) in nsm.entities.iter().enumerate() {
+                        if e.fields.len() > best.2 {
+                            best = (a, b, e.fields.len());
+                        }
+                    }
+                }
+                (best.0, best.1)
+            } else {
+                (ni, ei)
+            };
             for j in 0..k {
                 let ty = rand_scalar(rng);
                 let nullable = rng.gen_bool(0.5);
@@ -349,8 +371,37 @@ async fn read_all(p: &Peer, m: &ModelM) -> BTreeMap<String, Result<Value, String
     let mut out = BTreeMap::new();
     for (name, e) in m.entities() {
         let fields: Vec<String> = e.fields.iter().filter(|f| f.ty.is_scalar()).map(|f| f.name.clone()).collect();
-        let q = format!("query {{ r: {}(order_by(id asc)){{ id {} }} }}", name, fields.join(" "));
-        out.insert(name, p.query_json(&q, None).await.map(|v| v["r"].clone()));
+        // at most 40 fields per request: the width of one selection is not this property's subject (the engine limits
+        // the number of arguments of one function call, see the C14 finding); the parts are merged row by row
+        let mut merged: Result<Value, String> = Ok(json!([]));
+        for (ci, chunk) in fields.chunks(40).enumerate() {
+            let q = format!("query {{ r: {}(order_by(id asc)){{ id {} }} }}", name, chunk.join(" "));
+            match p.query_json(&q, None).await {
+                Err(e) => {
+                    merged = Err(e);
+                    break;
+                }
+                Ok(v) => {
+                    let rows = v["r"].as_array().cloned().unwrap_or_default();
+                    if ci == 0 {
+                        merged = Ok(Value::Array(rows));
+                    } else if let Ok(Value::Array(acc_rows)) = &mut merged {
+                        for (a, b) in acc_rows.iter_mut().zip(rows.into_iter()) {
+                            if let (Some(ao), Some(bo)) = (a.as_object_mut(), b.as_object()) {
+                                for (k, v) in bo {
+                                    ao.insert(k.clone(), v.clone());
+                                }
+                            }
+                        }
+                    }
+                }
+            }
+        }
+        if fields.is_empty() {
+            let q = format!("query {{ r: {}(order_by(id asc)){{ id }} }}", name);
+            merged = p.query_json(&q, None).await.map(|v| v["r"].clone());
+        }
+        out.insert(name, merged);
     }
     out
 }
